@@ -4,7 +4,9 @@
 //
 //   c14_lmtoproj hist <out.ndjson> <runs> <maxlen> <stage>    histogramming runs (stage 0 quick family, 1 thorough)
 //   c14_lmtoproj long <out.ndjson> <runs> <len>               few long streams (10^3..10^4 records)
-//   c14_lmtoproj grad <out.ndjson> <runs> <stage>             list-mode gradient vs projection-data gradient
+//   c14_lmtoproj grad <out.ndjson> <runs> <stage>             list-mode gradient vs projection-data gradient (ray tracing, fixed point)
+//   c14_lmtoproj gradx <out.ndjson> <runs> <stage>            the same on the explicit-matrix seam (exact instances)
+//   c14_lmtoproj allbatch <out.ndjson> <runs> <maxlen>        every num_segments_in_memory x num_TOF_bins_in_memory
 //
 // Trace lines of a histogramming run (one execution = Config ... End):
 //   Config   scanner + template geometry + all LmToProjData settings + frame definitions (ms)
@@ -19,6 +21,7 @@
 //   Out      f, part, nz: [[seg, ax, view, tang, tof, value*16], ...]   non-zero bins of the output projection data
 //   End      err
 #include "vh_listmode.h"
+#include "vh_explicit_matrix.h"
 #include "stir/listmode/LmToProjData.h"
 #include "stir/ProjDataInMemory.h"
 #include "stir/SegmentByView.h"
@@ -254,13 +257,22 @@ static void run_hist(vh::Trace& tr, const Geo& g, const Settings& st, const std:
   tr.emit(e);
 }
 
-static std::vector<std::pair<long, long>> random_frames(vh::Rng& rng, int maxframes) {
+static unsigned long last_mark(const std::vector<vh::LmRec>& recs) {
+  unsigned long t = 0;
+  for (auto& r : recs) if (r.is_time()) t = r.ms;
+  return t;
+}
+
+// frame boundaries: multiples of 125 ms spread over the duration of the stream (and a little beyond)
+static std::vector<std::pair<long, long>> random_frames(vh::Rng& rng, int maxframes, unsigned long duration) {
   std::vector<std::pair<long, long>> fr;
-  const int n = rng.range(1, maxframes);
-  long t = rng.range(0, 3) == 0 ? 125L * rng.range(1, 3) : 0;
+  const int nb = (int)(duration / 125) + 2;            // boundaries 0, 125, ..., nb * 125
+  const int n = rng.range(1, std::min(maxframes, nb));
+  const int w = std::max(1, nb / n);                    // typical width in boundaries
+  long t = rng.range(0, 3) == 0 ? 125L * rng.range(1, std::max(1, w)) : 0;
   for (int i = 0; i < n; ++i) {
-    if (i > 0 && rng.range(0, 4) == 0) t += 125L * rng.range(1, 2);     // gap between frames
-    const long e = t + 125L * rng.range(1, 4);
+    if (i > 0 && rng.range(0, 5) == 0) t += 125L * rng.range(1, 2);     // gap between frames
+    const long e = t + 125L * rng.range(1, std::max(1, w + 1));
     fr.push_back({ t, e });
     t = e;
   }
@@ -291,7 +303,7 @@ static void mode_hist(vh::Trace& tr, long runs, int maxlen, int stage, vh::Rng& 
       base.cls = "nstore";
     } else {
       recs = random_stream(rng, g, rng.range(kind == 0 ? 0 : 1, maxlen), base.hasD, sparse, true);
-      if (kind != 4) base.frames = random_frames(rng, 4);
+      if (kind != 4) base.frames = random_frames(rng, 4, last_mark(recs));
       base.cls = sparse ? "sparse" : kind == 4 ? "noframes" : "frames";
     }
     // the same stream under several batch sizes (always including 1 and all)
@@ -323,9 +335,9 @@ static void mode_allbatch(vh::Trace& tr, long runs, int maxlen, vh::Rng& rng) {
     shared_ptr<ProjDataInfo> templ = make_template(sc, g);
     const int nseg = templ->get_num_segments(), ntof = templ->get_num_tof_poss();
     Settings base;
-    base.frames = random_frames(rng, 2);
-    base.cls = "allbatch";
     auto recs = random_stream(rng, g, rng.range(4, maxlen), true, false, true);
+    base.frames = random_frames(rng, 2, last_mark(recs));
+    base.cls = "allbatch";
     for (int s = 1; s <= nseg; ++s)
       for (int t = 1; t <= ntof; ++t) {
         Settings st = base; st.segIM = s; st.tofIM = t;
@@ -391,10 +403,11 @@ static void run_grad(vh::Trace& tr, vh::Rng& rng, int stage) {
   // stream: prompts (and delayeds, which the list-mode objective ignores), frame [125, 500) ms selected by frame number
   std::vector<vh::LmRec> recs = random_stream(rng, g, rng.range(20, stage ? 120 : 60), true, false, true);
   std::vector<std::pair<long, long>> frames{ { 0, 125 }, { 125, 500 }, { 500, 1000 } };
-  const int frame_num = rng.range(0, 3);    // 0: no frame definitions
+  const unsigned long dur = last_mark(recs);
+  const int frame_num = dur < 125 ? rng.range(0, 1) : dur < 500 ? rng.range(0, 2) : rng.range(0, 3);    // 0: no frame definitions
   {
     vh::Json j("GConfig");
-    j.num("id", ++g_cfg_id);
+    j.num("id", ++g_cfg_id).boolean("xm", false);
     geo_fields(j, g, *templ);
     std::vector<std::vector<long long>> fr;
     if (frame_num > 0) fr.push_back({ frames[frame_num - 1].first, frames[frame_num - 1].second });
@@ -471,7 +484,150 @@ static void run_grad(vh::Trace& tr, vh::Rng& rng, int stage) {
     if (pdobj.set_up(image) != Succeeded::yes) error("projection-data objective set_up failed");
     shared_ptr<Img> g1(image->get_empty_copy()), g2(image->get_empty_copy());
     for (int sub = 0; sub < numSubsets; ++sub)
-      for (int plus = 0; plus < 2; ++plus) {
+      tr.emit(vh::Json("Sens").num("subset", sub).num("k", K).arr("lm", img_fx(lmobj.get_subset_sensitivity(sub), K)).arr("pd", img_fx(pdobj.get_subset_sensitivity(sub), K)));
+    for (int sub = 0; sub < numSubsets; ++sub)
+      for (int plus = 1; plus >= 0; --plus) {
+        g1->fill(0.F); g2->fill(0.F);
+        if (plus) {
+          lmobj.compute_sub_gradient_without_penalty_plus_sensitivity(*g1, *image, sub);
+          pdobj.compute_sub_gradient_without_penalty_plus_sensitivity(*g2, *image, sub);
+        } else {
+          lmobj.compute_sub_gradient_without_penalty(*g1, *image, sub);
+          pdobj.compute_sub_gradient_without_penalty(*g2, *image, sub);
+        }
+        tr.emit(vh::Json("Grad").num("subset", sub).boolean("plusSens", plus != 0).num("k", K).arr("lm", img_fx(*g1, K)).arr("pd", img_fx(*g2, K)));
+      }
+  }, &msg);
+  vh::Json e("End");
+  e.boolean("err", err);
+  if (err) e.str("msg", msg);
+  tr.emit(e);
+}
+
+// Exact instances (encoding E) on the explicit-matrix seam: rows with one or two small integer weights whose
+// forward projection of a power-of-two image is a power of two, additive terms that keep it a power of two.
+// The driver logs the matrix, the image exponents and the additive codes; TLC computes what must come out.
+static void run_gradx(vh::Trace& tr, vh::Rng& rng, int stage) {
+  Geo g;
+  g.N = 8;
+  g.R = rng.range(2, 3);
+  const int tofkind = rng.range(0, 3);            // 0,1: non-TOF, 2: 3 TOF bins, 3: 5 TOF bins
+  g.maxT = tofkind < 2 ? 0 : tofkind == 2 ? 3 : 5; g.tofMash = g.maxT > 0 ? 1 : 0;
+  g.span = (g.R == 3 && rng.coin()) ? 3 : 1; g.maxDelta = g.span == 3 ? 1 : g.R - 1;
+  g.mash = rng.range(0, 2) == 0 ? 2 : 1;
+  g.numTang = rng.pick(std::vector<int>{ 2, 3, 5 });
+  g.segReduce = 0;
+  shared_ptr<Scanner> sc = vh::make_scanner(g.N, g.R, g.maxT);
+  shared_ptr<ProjDataInfo> templ = make_template(sc, g);
+  const int numSubsets = (templ->get_num_views() % 2 == 0 && rng.coin()) ? 2 : 1;
+  const bool hasAdd = rng.coin();
+  const int K = 8;
+  shared_ptr<ExamInfo> ei(new ExamInfo); ei->imaging_modality = ImagingModality::PT;
+  const int nz = rng.range(1, 2), ny = rng.range(2, 3), nx = rng.range(2, 3);
+  shared_ptr<VoxelsOnCartesianGrid<float>> image(new VoxelsOnCartesianGrid<float>(
+      ei, IndexRange3D(0, nz - 1, -(ny / 2), -(ny / 2) + ny - 1, -(nx / 2), -(nx / 2) + nx - 1), CartesianCoordinate3D<float>(0.F, 0.F, 0.F),
+      CartesianCoordinate3D<float>(4.F, 4.F, 4.F)));
+  const auto vox = vh::xm_voxels(*image);
+  std::vector<int> lam;                    // exponents: image value 2^lam
+  for (auto& v : vox) { int e = rng.range(0, 2); lam.push_back(e); (*image)[v[0]][v[1]][v[2]] = (float)(1 << e); }
+  // rows, in the order (TOF bin, segment, axial position, view, tangential position)
+  shared_ptr<vh::ExplicitMatrixData> data(new vh::ExplicitMatrixData);
+  std::vector<std::vector<long long>> rows;
+  shared_ptr<ProjData> add;
+  if (hasAdd) add.reset(new ProjDataInMemory(ei, templ));
+  static const int PAT[7][2] = { { 1, 0 }, { 2, 0 }, { 4, 0 }, { 1, 1 }, { 2, 2 }, { 1, 3 }, { 3, 1 } };
+  for (int k = templ->get_min_tof_pos_num(); k <= templ->get_max_tof_pos_num(); ++k)
+    for (int sg = templ->get_min_segment_num(); sg <= templ->get_max_segment_num(); ++sg) {
+      SegmentByView<float> aseg = templ->get_empty_segment_by_view(sg, false, k);
+      for (int a = templ->get_min_axial_pos_num(sg); a <= templ->get_max_axial_pos_num(sg); ++a)
+        for (int v = templ->get_min_view_num(); v <= templ->get_max_view_num(); ++v)
+          for (int tp = templ->get_min_tangential_pos_num(); tp <= templ->get_max_tangential_pos_num(); ++tp) {
+            const int v1 = rng.range(0, (int)vox.size() - 1);
+            const int* pat = PAT[rng.range(0, 6)];
+            int v2 = -1;
+            if (pat[1]) {
+              std::vector<int> same;
+              for (int q = 0; q < (int)vox.size(); ++q) if (q != v1 && lam[q] == lam[v1]) same.push_back(q);
+              if (!same.empty()) v2 = rng.pick(same);
+            }
+            const int w1 = (pat[1] && v2 < 0) ? pat[0] + pat[1] : pat[0], w2 = v2 >= 0 ? pat[1] : 0;
+            std::vector<vh::XmElem> r{ { vox[v1][0], vox[v1][1], vox[v1][2], (float)w1 } };
+            if (v2 >= 0) r.push_back({ vox[v2][0], vox[v2][1], vox[v2][2], (float)w2 });
+            data->set_row(Bin(sg, v, a, tp, k), r);
+            const int fwd = (w1 + w2) << lam[v1];
+            const int ac = hasAdd ? rng.range(1, 2) : 0;               // additive term: fwd (code 1) or 3 fwd (code 2)
+            if (hasAdd) aseg[v][a][tp] = (float)(ac == 1 ? fwd : 3 * fwd);
+            rows.push_back({ sg, a, v, tp, k, v1 + 1, w1, v2 + 1, w2, ac });
+          }
+      if (hasAdd) add->set_segment(aseg);
+    }
+  std::vector<vh::LmRec> recs = random_stream(rng, g, rng.range(10, stage ? 100 : 50), true, false, true);
+  std::vector<std::pair<long, long>> frames{ { 0, 125 }, { 125, 500 }, { 500, 1000 } };
+  const unsigned long dur = last_mark(recs);
+  const int frame_num = dur < 125 ? rng.range(0, 1) : dur < 500 ? rng.range(0, 2) : rng.range(0, 3);    // 0: no frame definitions
+  {
+    vh::Json j("GConfig");
+    j.num("id", ++g_cfg_id).boolean("xm", true);
+    geo_fields(j, g, *templ);
+    std::vector<std::vector<long long>> fr;
+    if (frame_num > 0) fr.push_back({ frames[frame_num - 1].first, frames[frame_num - 1].second });
+    j.num("numSubsets", numSubsets).boolean("hasAdd", hasAdd).num("k", K).arr2("frames", fr).num("frameNum", frame_num).num("len", (long long)recs.size());
+    pdi_fields(j, *templ);
+    j.num("nvox", (long long)vox.size()).arr("lam", lam).arr2("rows", rows);
+    tr.emit(j);
+    std::vector<std::vector<long long>> rr;
+    for (auto& r : recs) rr.push_back(r.as_ints());
+    tr.emit(vh::Json("Stream").arr2("recs", rr));
+  }
+  std::string msg;
+  bool err = vh::threw([&] {
+    auto lm = std::make_shared<vh::VhListModeData<>>(templ, recs, true);
+    shared_ptr<ProjData> hist(new ProjDataInMemory(lm->get_exam_info_sptr(), templ));
+    {
+      LmProbe l2p;
+      l2p.set_input_data(lm);
+      l2p.set_template_proj_data_info_sptr(templ);
+      l2p.set_output_filename_prefix("c14-unused");
+      l2p.set_store_prompts(true);
+      l2p.set_store_delayeds(false);
+      if (frame_num > 0) {
+        std::vector<std::pair<double, double>> ft{ { (unsigned long)frames[frame_num - 1].first / 1000., (unsigned long)frames[frame_num - 1].second / 1000. } };
+        l2p.set_time_frame_definitions(TimeFrameDefinitions(ft));
+      }
+      l2p.set_up();
+      l2p.replace_output(hist);
+      l2p.process_data();
+      emit_out(tr, *hist, 1, false);
+    }
+    LmObjProbe lmobj;
+    lmobj.set_input_data(lm);
+    lmobj.set_proj_matrix(shared_ptr<ProjMatrixByBin>(new vh::ExplicitProjMatrix(data)));
+    if (hasAdd) lmobj.set_additive_proj_data_sptr(add);
+    lmobj.set_num_subsets(numSubsets);
+    lmobj.set_use_subset_sensitivities(true);
+    lmobj.set_recompute_sensitivity(true);
+    lmobj.set_skip_balanced_subsets(true);
+    if (frame_num > 0) {
+      std::vector<std::pair<double, double>> ft;
+      for (int f = 0; f < frame_num; ++f) ft.push_back({ (unsigned long)frames[f].first / 1000., (unsigned long)frames[f].second / 1000. });
+      lmobj.frame_defs = TimeFrameDefinitions(ft);
+      lmobj.set_frame_num(frame_num);
+    }
+    if (lmobj.set_up(image) != Succeeded::yes) error("list-mode objective set_up failed");
+    PoissonLogLikelihoodWithLinearModelForMeanAndProjData<Img> pdobj;
+    pdobj.set_proj_data_sptr(hist);
+    pdobj.set_projector_pair_sptr(vh::make_explicit_projector_pair(data));
+    if (hasAdd) pdobj.set_additive_proj_data_sptr(add);
+    pdobj.set_num_subsets(numSubsets);
+    pdobj.set_use_subset_sensitivities(true);
+    pdobj.set_recompute_sensitivity(true);
+    pdobj.set_zero_seg0_end_planes(false);
+    if (pdobj.set_up(image) != Succeeded::yes) error("projection-data objective set_up failed");
+    shared_ptr<Img> g1(image->get_empty_copy()), g2(image->get_empty_copy());
+    for (int sub = 0; sub < numSubsets; ++sub)
+      tr.emit(vh::Json("Sens").num("subset", sub).num("k", K).arr("lm", img_fx(lmobj.get_subset_sensitivity(sub), K)).arr("pd", img_fx(pdobj.get_subset_sensitivity(sub), K)));
+    for (int sub = 0; sub < numSubsets; ++sub)
+      for (int plus = 1; plus >= 0; --plus) {
         g1->fill(0.F); g2->fill(0.F);
         if (plus) {
           lmobj.compute_sub_gradient_without_penalty_plus_sensitivity(*g1, *image, sub);
@@ -501,6 +657,7 @@ int main(int argc, char** argv) {
   if (mode == "hist") mode_hist(tr, runs, argc > 4 ? atoi(argv[4]) : 40, argc > 5 ? atoi(argv[5]) : 0, rng);
   else if (mode == "allbatch") mode_allbatch(tr, runs, argc > 4 ? atoi(argv[4]) : 30, rng);
   else if (mode == "long") mode_long(tr, runs, argc > 4 ? atoi(argv[4]) : 2000, rng);
+  else if (mode == "gradx") for (long i = 0; i < runs; ++i) run_gradx(tr, rng, argc > 4 ? atoi(argv[4]) : 0);
   else if (mode == "grad") for (long i = 0; i < runs; ++i) run_grad(tr, rng, argc > 4 ? atoi(argv[4]) : 0);
   else return 2;
   return 0;
